@@ -213,7 +213,7 @@ def bcdSafeTop (cd : Codec α) (contig : Bool) (t : Nat) (C : List (List α)) (Y
 
 /-- With `l1 = 0` the gap formula jumps at `XᵀR − l2·W = 0` exactly (scaling constant 1 instead of 0): a
 ridge / unpenalised descent that has converged sits at rounding distance from that point, and whether it
-hits it exactly (and then breaks) hangs on the last bits of gemm.  `tieLevel` is `‖XᵀR − l2·W‖ / (‖R‖·max‖x_j‖)`
+hits it exactly (and then breaks) hangs on the last bits of gemm.  `tieLevel` is `‖XᵀR − l2·W‖ / (‖Y‖·max‖x_j‖)` (`Y` the centred target)
 recomputed at the returned point; at or under `tieThr` (harness: same criterion from first principles) the
 gap and the sweep count are not compared (`-`), `W`, `b`, `predict` still are; within a factor 100 of
 the threshold the line is skipped. -/
@@ -222,9 +222,9 @@ def tieLevel (cd : Codec α) (t : Nat) (C Yc W : List (List α)) (l1r pen n : α
   let Rc := List.zipWith (fun yk wk => residual C yk wk 0) (colsOf t Yc) (colsOf t W)
   let R := colsOf Yc.length Rc
   let dn := cd.wide (dualNormMtl t C W R l2)
-  let rn := cd.wide (sumS (R.flatten.map fun x => x * x))
+  let yn := cd.wide (sumS (Yc.flatten.map fun x => x * x))
   let xn := cd.wide (normMax (C.map fun c => dotS c c))
-  dn / (Float.sqrt rn * Float.sqrt xn + 1e-300)
+  dn / (Float.sqrt yn * Float.sqrt xn + 1e-300)
 
 /-- `(gap token, steps token, safe)` -/
 def gapSteps (cd : Codec α) (t : Nat) (C Yc W : List (List α)) (l1r pen n g : α) (s : Nat) (safe : Bool) :
